@@ -168,11 +168,16 @@ func buildCLI(outDir string) (string, error) {
 // runCLI runs the command in its own process group (lox starts `go list`) and kills the group
 // on timeout.
 func runCLI(bin string, args []string, cwd string, timeout time.Duration) cliResult {
+	return runCLIEnv(bin, args, cwd, timeout, nil)
+}
+
+// runCLIEnv: like runCLI with further environment settings (later entries win).
+func runCLIEnv(bin string, args []string, cwd string, timeout time.Duration, extraEnv []string) cliResult {
 	ctx, cancel := context.WithTimeout(context.Background(), timeout)
 	defer cancel()
 	cmd := exec.Command(bin, args...)
 	cmd.Dir = cwd
-	cmd.Env = append(os.Environ(), goEnv...)
+	cmd.Env = append(append(os.Environ(), goEnv...), extraEnv...)
 	cmd.SysProcAttr = &syscall.SysProcAttr{Setpgid: true}
 	var so, se bytes.Buffer
 	cmd.Stdout, cmd.Stderr = &so, &se
